@@ -97,23 +97,154 @@ def probe_portfolio(spec):
             portf2 = mk_portfolio(spec)
             tg2 = mk_grid(spec['grid'])
             ops = portf2.setup_split_optim_problem(mk_prices(spec), tg2, interval_size=opts['split'])
-            o['split'] = {'ops': [dump_problem(p) for p in ops.ops], 'mapping': dump_mapping(ops.mapping),
-                          'c': [float(v) for v in ops.c],
-                          'map_nodal_restr': None if ops.map_nodal_restr is None else [[int(t), str(n)] for t, n in ops.map_nodal_restr]}
-            rs2 = np.random.RandomState(seed_of(spec, 'xs'))
-            xs = np.hstack([random_x(p, rs2) for p in ops.ops]) if ops.ops else np.zeros(0)
-            o['split']['xr'] = [float(v) for v in xs]
-            o['split']['out_r'] = tables(portf2, ops, FakeResults(xs, value=float(-ops.c @ xs)))
-            if not opts.get('no_solve'):
-                res = ops.optimize()
-                if isinstance(res, str):
-                    o['split']['solve'] = res
-                else:
-                    o['split']['solve'] = 'optimal'
-                    o['split']['x'] = [float(v) for v in res.x]
-                    o['split']['value'] = float(res.value)
-                    o['split']['duals'] = dump_duals(res.duals)
-                    o['split']['out'] = tables(portf2, ops, res)
         except Exception as e:
-            o['split'] = {'error': repr(e)[:300]}
+            o['split'] = {'setup_error': repr(e)[:300]}
+            return o
+        sd = {'ops': [dump_problem(p) for p in ops.ops], 'mapping': dump_mapping(ops.mapping),
+              'c': [float(v) for v in ops.c],
+              'map_nodal_restr': None if ops.map_nodal_restr is None else [[int(t), str(n)] for t, n in ops.map_nodal_restr]}
+        o['split'] = sd
+        rs2 = np.random.RandomState(seed_of(spec, 'xs'))
+        xs = np.hstack([random_x(p, rs2) for p in ops.ops]) if ops.ops else np.zeros(0)
+        sd['xr'] = [float(v) for v in xs]
+        try:
+            sd['out_r'] = tables(portf2, ops, FakeResults(xs, value=float(-ops.c @ xs)))
+        except Exception as e:
+            sd['out_r'] = None
+            sd['out_r_error'] = repr(e)[:300]
+        if not opts.get('no_solve'):
+            try:
+                res = ops.optimize()
+            except Exception as e:
+                res = None
+                sd['solve_error'] = repr(e)[:300]
+            if res is None:
+                sd['solve'] = 'crash'
+            elif isinstance(res, str):
+                sd['solve'] = res
+            else:
+                sd['solve'] = 'optimal'
+                sd['x'] = [float(v) for v in res.x]
+                sd['value'] = float(res.value)
+                sd['duals'] = dump_duals(res.duals)
+                try:
+                    sd['out'] = tables(portf2, ops, res)
+                except Exception as e:
+                    sd['out'] = None
+                    sd['out_error'] = repr(e)[:300]
+    return o
+
+
+# ------------------------------------------------------------------ C03: optimise arbitrary problems
+def problem_from_lp(d):
+    """synthetic OptimProblem from a dict c,l,u,rows,b,cType,mapping"""
+    import scipy.sparse as sp
+    n = len(d['c'])
+    A = sp.lil_matrix((len(d['rows']), n))
+    for i, (cols, vals) in enumerate(d['rows']):
+        for j, v in zip(cols, vals):
+            A[i, j] += v
+    mp = pd.DataFrame(d['mapping'])
+    mp = mp.set_index('index')
+    mp.index.name = None
+    return OptimProblem(c=np.asarray(d['c'], float), l=np.asarray(d['l'], float), u=np.asarray(d['u'], float),
+                        A=A if len(d['rows']) else None, b=np.asarray(d['b'], float) if len(d['rows']) else None,
+                        cType=d['cType'] if len(d['rows']) else None, mapping=mp)
+
+
+def farkas_multipliers(p):
+    """multipliers proving infeasibility of the LP relaxation (phase-1 LP solved with HiGHS), or None"""
+    from scipy.optimize import linprog
+    n = len(p['c'])
+    rows, rhs, owner, sgn = [], [], [], []
+    for i, ((cols, vals), t, b) in enumerate(zip(p['rows'], p['cType'], p['b'])):
+        a = np.zeros(n + 1)
+        for j, v in zip(cols, vals):
+            a[j] += v
+        if t in 'USN':
+            r = a.copy(); r[n] = -1.0
+            rows.append(r); rhs.append(b); owner.append(i); sgn.append(1.0)
+        if t in 'LSN':
+            r = -a.copy(); r[n] = -1.0
+            rows.append(r); rhs.append(-b); owner.append(i); sgn.append(-1.0)
+    if not rows:
+        return None
+    c = np.zeros(n + 1); c[n] = 1.0
+    bounds = [(l, u) for l, u in zip(p['l'], p['u'])] + [(0, None)]
+    r = linprog(c, A_ub=np.asarray(rows), b_ub=np.asarray(rhs), bounds=bounds, method='highs')
+    if r.status != 0 or r.fun <= 1e-7:
+        return None
+    lam = -np.asarray(r.ineqlin.marginals)
+    y = np.zeros(len(p['rows']))
+    for k, (i, s) in enumerate(zip(owner, sgn)):
+        y[i] += s * lam[k]
+    return [float(v) for v in y]
+
+
+def probe_optim(spec):
+    o = {}
+    opts = spec.get('opts', {})
+    try:
+        if 'lp' in spec:
+            op = problem_from_lp(spec['lp'])
+        else:
+            portf = mk_portfolio(spec)
+            op = portf.setup_optim_problem(mk_prices(spec), mk_grid(spec['grid']))
+    except Exception as e:
+        return {'status': 'setup_error', 'error': repr(e)[:300]}
+    o['status'] = 'ok'
+    o['problem'] = dump_problem(op)
+    mp = op.mapping
+    if 'bool' in mp:
+        o['bools'] = [int(i) for i in mp.loc[(~mp.index.duplicated(keep='first')) & (mp['bool'].fillna(False).astype(bool))].index.values]
+    else:
+        o['bools'] = []
+    o['runs'] = []
+    for kw in opts.get('solvers', [{}]):
+        r = {'kw': kw}
+        try:
+            res = op.optimize(**kw)
+        except Exception as e:
+            r['solve'] = 'crash'
+            r['error'] = repr(e)[:300]
+            o['runs'].append(r)
+            continue
+        if isinstance(res, str):
+            r['solve'] = res
+            if res != 'inaccurate':
+                r['farkas'] = farkas_multipliers(o['problem'])
+        else:
+            r['solve'] = 'optimal'
+            r['x'] = [float(v) for v in res.x]
+            r['value'] = float(res.value)
+            r['duals'] = dump_duals(res.duals)
+        o['runs'].append(r)
+    return o
+
+
+# ------------------------------------------------------------------ C18: nodal prices
+def probe_prices(spec):
+    o = probe_portfolio(dict(spec, opts=dict(spec.get('opts', {}), split=None)))
+    if o.get('status') != 'ok' or o.get('solve') != 'optimal' or not o.get('duals'):
+        return o
+    portf = mk_portfolio(spec)
+    tg = mk_grid(spec['grid'])
+    op = portf.setup_optim_problem(mk_prices(spec), tg)
+    rs = np.random.RandomState(seed_of(spec, 'inj'))
+    nidx = [i for i, t in enumerate(op.cType) if t == 'N']
+    o['injections'] = []
+    if not nidx:
+        return o
+    for _ in range(int(spec.get('opts', {}).get('n_inj', 3))):
+        k = int(rs.randint(0, len(nidx)))
+        d = float(rs.choice([-2.0, -0.5, -0.125, 0.125, 0.5, 2.0]))
+        b0 = op.b[nidx[k]]
+        op.b[nidx[k]] = b0 - d          # sum disp + d = 0
+        try:
+            r = op.optimize()
+        finally:
+            op.b[nidx[k]] = b0
+        t, node = op.map_nodal_restr[k]
+        o['injections'].append({'k': k, 'step': int(t), 'node': str(node), 'd': d,
+                                'value': None if isinstance(r, str) else float(r.value), 'status': r if isinstance(r, str) else 'optimal'})
     return o
